@@ -5,7 +5,9 @@ import (
 	"net"
 	"os"
 	"path/filepath"
+	"runtime"
 	"strings"
+	"sync"
 	"testing/synctest"
 	"time"
 
@@ -51,7 +53,8 @@ type node struct {
 	failed   bool             // CONSENSUS FAILURE logged by the receive routine
 	failMsg  string
 	alive    bool
-	parked   []*parkedWriter // writers waiting at the write gate
+	pmu      sync.Mutex
+	parked   []*parkedWriter // writers waiting at the write gate (guarded by pmu)
 	gateOn   bool
 	gateHook func(db, op string) // called (driver not running) before every write, no lock held
 	commits  []commitRec         // CommitBlock calls observed (height, hash, returned)
@@ -59,7 +62,29 @@ type node struct {
 
 type parkedWriter struct {
 	db, op string
+	who    string // function of the code under test that issues the write
 	ch     chan struct{}
+}
+
+// writerOf names the linkchain function that issued the write being gated
+// (SaveBlock's receipts and txs-result writers are both "blockstore set": the
+// choice set offered to the tape must not depend on their arrival order).
+func writerOf() string {
+	pcs := make([]uintptr, 24)
+	k := runtime.Callers(3, pcs)
+	frames := runtime.CallersFrames(pcs[:k])
+	for {
+		f, more := frames.Next()
+		if i := strings.Index(f.Function, "linkchain/blockchain."); i >= 0 {
+			return f.Function[i+len("linkchain/"):]
+		}
+		if i := strings.Index(f.Function, "linkchain/libs/txmgr."); i >= 0 {
+			return f.Function[i+len("linkchain/libs/"):]
+		}
+		if !more {
+			return ""
+		}
+	}
 }
 
 type commitRec struct {
@@ -285,9 +310,27 @@ func (n *node) gate(db, op string) {
 	if !n.gateOn || (db != simnode.DBBlockStore && db != simnode.DBTxMgr) {
 		return
 	}
-	p := &parkedWriter{db: db, op: op, ch: make(chan struct{})}
-	n.parked = append(n.parked, p) // only ever touched while the driver is in synctest.Wait or by the single running writer chain; see settle
+	p := &parkedWriter{db: db, op: op, who: writerOf(), ch: make(chan struct{})}
+	n.pmu.Lock() // SaveBlock's writers arrive concurrently; the lock is never held while parked
+	if !n.gateOn {
+		n.pmu.Unlock()
+		return
+	}
+	n.parked = append(n.parked, p)
+	n.pmu.Unlock()
 	<-p.ch
+}
+
+// releaseAll switches the gate off and lets every parked writer go.
+func (n *node) releaseAll() {
+	n.pmu.Lock()
+	n.gateOn = false
+	ps := n.parked
+	n.parked = nil
+	n.pmu.Unlock()
+	for _, p := range ps {
+		close(p.ch)
+	}
 }
 
 // settle waits for quiescence, releasing parked writers one at a time in an
@@ -295,10 +338,12 @@ func (n *node) gate(db, op string) {
 func (n *node) settle() {
 	for {
 		synctest.Wait()
+		n.pmu.Lock()
 		if len(n.parked) == 0 {
+			n.pmu.Unlock()
 			return
 		}
-		// stable order of the choice set: by (db, op) then arrival
+		// stable order of the choice set: by (db, op, issuing function)
 		i := 0
 		if len(n.parked) > 1 {
 			sortParked(n.parked)
@@ -307,13 +352,14 @@ func (n *node) settle() {
 		}
 		p := n.parked[i]
 		n.parked = append(n.parked[:i:i], n.parked[i+1:]...)
+		n.pmu.Unlock()
 		close(p.ch)
 	}
 }
 
 func sortParked(ps []*parkedWriter) {
 	for i := 1; i < len(ps); i++ {
-		for j := i; j > 0 && (ps[j].db+"/"+ps[j].op) < (ps[j-1].db+"/"+ps[j-1].op); j-- {
+		for j := i; j > 0 && (ps[j].db+"/"+ps[j].op+"/"+ps[j].who) < (ps[j-1].db+"/"+ps[j-1].op+"/"+ps[j-1].who); j-- {
 			ps[j], ps[j-1] = ps[j-1], ps[j]
 		}
 	}
@@ -385,13 +431,10 @@ func (n *node) stop() {
 	}
 	n.alive = false
 	n.timer = nil
-	n.gateOn = false
 	n.gateHook = nil
 	// nobody may stay parked
-	for _, p := range n.parked {
-		close(p.ch)
-	}
-	n.parked = nil
+	n.releaseAll()
+	synctest.Wait()
 	kernel.Try(func() {
 		if n.react != nil {
 			if n.failed {
